@@ -42,6 +42,9 @@ type profile struct {
 	// fail, so form-mode worlds only get it when badQueryForm is set (safety-only monitors).
 	badQuery     int
 	badQueryForm bool
+	// cancelPct > 0: that share of the requests has its context cancelled while it is being served
+	// (the client gave up). No backend call fails, so every rule applies unchanged.
+	cancelPct int
 }
 
 var goodPWs = []string{"Passw0rd!A", "Passw0rd!B", "Passw0rd!C", "Passw0rd!D", "Zq9#mmmmX", "N3w-Secret_pw"}
@@ -943,7 +946,24 @@ func genCase(t *rapid.T, p profile) Case {
 	decorateFaults(t, p, c.Ops)
 	decorateJSON(t, p, cfg, c.Ops)
 	decorateQuery(t, p, cfg, c.Ops)
+	decorateCancel(t, p, c.Ops)
 	return c
+}
+
+func decorateCancel(t *rapid.T, p profile, ops []Op) {
+	if p.cancelPct <= 0 {
+		return
+	}
+	for i := range ops {
+		switch ops[i].K {
+		case "advance", "newsess", "steal", "setcookie", "dropcookie", "lock", "unlock", "updpw", "setphone":
+			continue
+		}
+		if ops[i].FA == 0 && chance(t, "cancel", p.cancelPct) {
+			ops[i].FA = pick(t, "cancelat", 1, 1, 2, 2, 3)
+			ops[i].FK = "cancel"
+		}
+	}
 }
 
 var junkQueries = []string{"utm=100%", "a=%zz", "a;b", "x=%", "%", "redir=%2", "q=%u00e9"}
